@@ -729,8 +729,16 @@ def check_mutation(case):
         out.true(f"{name}:repeating the call repeats the result", c1 == canon(r2), "results differ bit-wise")
         out.true(f"{name}:a returned value is not changed by later calls", canon(r1) == c1,
                  "the value returned by the first call changed when the call was repeated (shared mutable state)")
-    # same buffers, new contents: results must depend on the VALUE of the arguments, not on object identity
+    # a call with DIFFERENT arguments (fresh arrays) must not change what an earlier call returned: results that alias a
+    # module-level workspace or a shared default survive a repetition with the same arguments, not this
     case2 = _variant(case)
+    np.random.seed(case["seed"])
+    with contextlib.redirect_stdout(io.StringIO()):
+        oko, _ro = out.call(f"{name}:call with other arguments", fn, *build(case2))
+    if oko:
+        out.true(f"{name}:a returned value is not changed by a later call with other arguments", canon(r1) == c1,
+                 "the value returned by the first call changed when the routine was called with different arguments")
+    # same buffers, new contents: results must depend on the VALUE of the arguments, not on object identity
     args_new = build(case2)
     compatible = len(args_new) == len(args) and all(
         (isinstance(a, np.ndarray) and isinstance(b_, np.ndarray) and a.shape == b_.shape and a.dtype == b_.dtype)
